@@ -252,6 +252,15 @@ def files(ctx: Ctx):
                     extra = [alias_spelling(m) for m in items if alias_spelling(m) != m and ctx.rng.random() < 0.2]
                     if extra:
                         t['action'][i] = ', '.join(items + extra)
+    # two-digit offsets and spans (own generator state): 2del10, 3del10, 5del20, 10del10, 12del20 added to region 2 of every sixth SGE design
+    import random
+    r2 = random.Random(f'C02-two-digit-{ctx.seed}')
+    for i, d in enumerate(designs):
+        if d['mode'] == 'sge' and i % 6 == 3:
+            t = r2.choice(d['targetons'])
+            items = [x.strip() for x in t['action'][1].split(',') if x.strip()]
+            if items:
+                t['action'][1] = ', '.join(items + r2.sample(['2del10', '3del10', '5del20', '10del10', '12del20', '1del10', '4del11'], 2))
     # length limits: rows that are too short (deletions) or too long go to the excluded file and still count
     for i, d in enumerate(designs):
         if i % 5 == 1:
